@@ -9,6 +9,7 @@ from symx import run
 
 MODULES = {
     "C14": "harness.dwarf",
+    "C15": "harness.cfi_eval",
 }
 
 
